@@ -165,6 +165,21 @@ template <typename T> static void many_adds(long long N)
         .a("binErrUlps", std::vector<long long>{err_ulps<T>(s, exact, exact, e)}).emit();
 }
 
+// several iterations in one run, no distributions: the first leaves a pending compensation behind (1024 followed by very many values far below
+// its last place), the following ones are short and made of such small values only - their sums are exact
+template <typename T> static void carry_run(long long N)
+{
+    int const e = std::numeric_limits<T>::digits + 1;
+    T const tiny = std::ldexp(T(1), -e);
+    long long idx = 0;
+    auto f = [&](hep::mc_point<T> const&) { long long i = idx++; return i == 0 ? T(1024) : (i < N ? tiny * T(1 + i % 3) : tiny * T(3 + (i - N))); };
+    auto r = hep::plain(hep::make_integrand<T>(f, 1), std::vector<std::size_t>{(std::size_t) N, 3, 1}, hep::make_plain_chkpt<T>(),
+        hep::callback<hep::default_plain_chkpt<T>>(hep::callback_mode::silent));
+    // second iteration: 3 + 4 + 5 = 12, third: 6 (units 2^-e)
+    ev("SumCheck").s("T", type_name<T>::get()).s("family", "after-a-long-iteration").i("N", 3).i("errUlps", err_ulps<T>(r.results()[1].sum(), 12, 12, e))
+        .a("binErrUlps", std::vector<long long>{err_ulps<T>(r.results()[2].sum(), 6, 6, e)}).emit();
+}
+
 template <typename T> static void real_family(rng& g, bool thorough)
 {
     std::vector<long long> Ns{1, 1000, 100000};
@@ -172,6 +187,7 @@ template <typename T> static void real_family(rng& g, bool thorough)
     for (int f = 0; f != 5; ++f) for (long long N : Ns) real_run<T>(f, N, g.next());
     for (int f = 0; f != 5; ++f) real_run<T>(f, 1000, g.next(), true);
     many_adds<T>(thorough ? 4000 : 800);
+    carry_run<T>(thorough ? 1000000 : 100000);
 }
 
 int main(int argc, char** argv)
